@@ -22,7 +22,7 @@ pub fn bdd_cfg(u: &mut Unstructured, max_n0: u8) -> Result<BddCfg> {
         0..=25 => None,
         x => Some(1 + (x as u16 % 64)),
     };
-    Ok(BddCfg { n0, order_keys, cache, table_cap })
+    Ok(BddCfg { n0, order_keys, cache, table_cap, embed: None })
 }
 
 pub fn bop(u: &mut Unstructured) -> Result<BOp> {
